@@ -105,6 +105,7 @@ type Exec struct {
 	atomics       map[*Value]Value
 	ghost         map[string]Value
 	uuidCount     int
+	ptrIds        map[interface{}]int64
 	preempts      int
 	race          *raceState
 	endMsg        string
